@@ -10,8 +10,11 @@ GEN = ['GPolicy.v', 'GChecks.v', 'GParser.v']
 
 # layers in precedence order (later wins); the last two must be ignored
 LAYERS = ['default', 'main', 'policy.d/10-x.yaml', 'policy.d/2-y.json', 'policy.d/B.yaml', 'policy.d/_u.yaml',
-          'policy.d/a.yaml', 'second.d/a.yaml', 'policy.d/.hidden.yaml', 'policy.d/sub']
-EFFECTIVE = LAYERS[:8]
+          'policy.d/a.yaml', 'policy.d/a.yaml~', 'policy.d/noext', 'second.d/a.yaml', 'second.d/z.txt',
+          'policy.d/.hidden.yaml', 'policy.d/sub']
+# every regular file counts, whatever its name looks like (backup suffix, no extension, .txt): only dot-files and
+# sub-directories are ignored
+EFFECTIVE = LAYERS[:11]
 NAMES = ['alpha', 'beta']
 
 
@@ -29,7 +32,7 @@ def build(root, assign, main_present, fmts):
                 files.setdefault(l, {})[n] = 'role:' + l.replace('/', '_').replace('.', '_')
     if main_present:
         fs.write_main(files.get('main', {}), fmts.get('main', 'json'))
-    for l in LAYERS[2:9]:
+    for l in LAYERS[2:12]:
         d, fn = l.split('/')
         if l in files or l == 'policy.d/10-x.yaml':
             fs.write(d, fn, files.get(l, {}), 'yaml' if fmts.get(l) == 'yaml' else 'json')
@@ -53,7 +56,7 @@ def run(run, binfo):
     for r in range(len(LAYERS) + 1):
         subsets += [set(c) for c in itertools.combinations(LAYERS, r)]
     if tier == 'quick':
-        picks = subsets[::2]
+        picks = subsets[::11]
     else:
         picks = subsets[::2]
     cases = []
